@@ -808,6 +808,14 @@ statement about what the hook WROTE — bytes. `MetricsText.runFile` puts the by
 reader (`HookOutput.fromReader`, shared with C04) in front of `sendBatch`; `spells file ops` ties the
 typed operations to the documents the reader decodes (nothing is assumed about files it rejects). -/
 
+/-- Tie T1 for the reader: the loop of `MetricOperationsFromReader`, regenerated from the source on every
+run, ends quietly on `io.EOF` ONLY (what `HookOutput.decodeNext` calls `.eof`: nothing but blanks left)
+and returns every other error of `Decode` — `io.ErrUnexpectedEOF` of a cut-off document included
+(`.err`) — without any operation. -/
+theorem reader_loop_shape : Facts.c16ReaderLoop =
+    ["err := dec.Decode(&metricOperation)", "err == io.EOF", "break", "err != nil", "return nil, err"] := by
+  decide
+
 open ShellOp.MetricsText in
 /-- **C16.1 on the file `rejected_file_noop`**: for every store, hook and map order — a metrics file that
 is not a well-formed stream of documents that are ALL valid metric operations (`HookOutput.metricsOk`:
